@@ -71,3 +71,38 @@ func vpC07_O1() {
 		vpAssert("at most one prepared commitment is cached", len(cred.nonrevCache) <= 1)
 	}
 }
+
+func init() {
+	vpHarnesses["vpC07_O3"] = vpC07_O3
+}
+
+// C07-O3: issuance commitments. One credential builder asked twice for its commitment
+// proof (a retry with a fresh issuer nonce), or used in a proof list and then asked
+// for its commitment proof: the secret-key randomiser of the second proof is not that
+// of the first - the two-transcript extractor (s1 - s2)/(c1 - c2) does not give the
+// secret key. (The builder's blinding v' is fixed at creation: that is the builder's
+// state, not a hidden attribute, the secret key or a witness value.)
+func vpC07_O3() {
+	pk, _ := vpKeys(0, 3, 1024, false)
+	ctx := vpBigBits("ctx", 256)
+	secret := vpBigBits("secret", 255)
+	n1, n1b := vpBigBits("nonce1", 80), vpBigBits("nonce1b", 80)
+	b, err := NewCredentialBuilder(pk, ctx, secret, vpBigBits("n2", 80), nil, nil)
+	vpAssume(err == nil)
+	var pu1 *ProofU
+	if vpBool("firstInProofList") {
+		pl, err := ProofBuilderList{b}.BuildProofList(ctx, n1, false)
+		vpAssume(err == nil)
+		pu1 = pl[0].(*ProofU)
+	} else {
+		m1, err := b.CommitToSecretAndProve(n1)
+		vpAssume(err == nil)
+		pu1 = m1.Proofs[0].(*ProofU)
+	}
+	m2, err := b.CommitToSecretAndProve(n1b)
+	vpAssume(err == nil)
+	pu2 := m2.Proofs[0].(*ProofU)
+	r1 := vpImplied(pu1.SResponse, pu1.C, secret)
+	r2 := vpImplied(pu2.SResponse, pu2.C, secret)
+	vpAssert("two issuance commitments of one builder use different secret-key randomisers", r1.Cmp(r2) != 0)
+}
